@@ -369,6 +369,8 @@ func main() {
 	facts = append(facts, fact{"ord_commit_wait_done", "op", before("txn.go", "Txn", "commitAndSend", "req.Wait()", "orc.doneCommit(commitTs)\n\t\treturn err"), "txn.go:commitAndSend [req.Wait vs doneCommit]"})
 	// manifest rewrite rule
 	addOp("op_manifest_rewrite_threshold", "manifest.go", "manifestFile", "addChanges", "Deletions", "deletionsRewriteThreshold")
+	// directory locks (C35): Open takes the second lock iff the absolute paths differ
+	addOp("op_open_valuedir_cmp", "db.go", "", "Open", "absValueDir", "absDir")
 
 	// hashes of every anchored file
 	shas := map[string]string{}
